@@ -16,9 +16,13 @@ import copy
 import hashlib
 import io
 import json
+import multiprocessing as mp
 import os
+import pickle
 import subprocess
 import sys
+import tempfile
+import warnings
 
 import numpy as np
 import quaternion
@@ -567,6 +571,125 @@ def _stale_events(tid0):
     return ev
 
 
+# ---- histories over RELATED arguments: what a call returns is a function of its arguments only, whatever was computed
+# before for arguments that share a shape, a buffer content, or most entries with them (a memoised helper with a key that
+# is too coarse, a start value or scratch buffer kept from the previous call).  References come from processes in which
+# NOTHING has been called before (a fresh interpreter that imports the library and forks one child per reference).
+RELATED = ("other-values", "same-bytes-other-shape", "scaled", "one-entry-changed", "negated", "base", "other-values-again", "base-again")
+
+
+def _related_args(args, variant):
+    """-> list of float arrays, or None when the variant does not apply"""
+    v = variant.replace("-again", "")
+    if v == "base":
+        return [a.copy() for a in args]
+    if v == "other-values":
+        return [a[::-1, ::-1].copy() if a.ndim >= 3 else a[::-1].copy() for a in args]      # keeps squareness and Hermitian-ness
+    if v == "scaled":
+        return [2.0 * a for a in args]
+    if v == "negated":
+        return [-a for a in args]
+    if v == "one-entry-changed":
+        out = [a.copy() for a in args]
+        out[0][(0,) * (out[0].ndim - 1) + (0,)] += 1.0                                       # real part of a diagonal entry
+        return out
+    if v == "same-bytes-other-shape":
+        a = args[0]
+        if len(args) != 1 or a.ndim < 3 or a.shape[0] == a.shape[1]:
+            return None
+        return [np.ascontiguousarray(a).reshape(a.shape[:-1][::-1] + (4,)).copy()]
+    raise KeyError(variant)
+
+
+def _plain(o):
+    """picklable, comparable image of a returned value"""
+    if isinstance(o, np.ndarray):
+        return quaternion.as_float_array(o).copy() if o.dtype == np.quaternion else (o.copy() if o.dtype != object else repr(o)[:200])
+    if hasattr(o, "real") and hasattr(o, "i") and hasattr(o, "k") and hasattr(o, "shape") and not isinstance(o, (np.generic, int, float, complex)) and not isinstance(o, np.quaternion):
+        return ("sparse", tuple(np.asarray(getattr(o, p).toarray()) for p in ("real", "i", "j", "k")))
+    if isinstance(o, np.quaternion):
+        return np.array([o.w, o.x, o.y, o.z])
+    if hasattr(o, "toarray"):
+        return np.asarray(o.toarray())
+    if isinstance(o, dict):
+        return {str(k): _plain(v) for k, v in o.items() if "time" not in str(k)}
+    if isinstance(o, (list, tuple)):
+        return [_plain(x) for x in o]
+    if isinstance(o, (bool, int, float, complex, str, type(None), np.number, np.bool_)):
+        return o
+    return ("object", type(o).__name__)
+
+
+def _related_call(i, variant):
+    tab = mutation_table()[0]
+    name, f, args = tab[i]
+    cur = _related_args(args, variant)
+    if cur is None:
+        return None
+    qa = [q_from_float(a) if a.ndim == 3 else quaternion.as_quat_array(a.copy()) for a in cur]
+    np.random.seed(5)
+    try:
+        with contextlib.redirect_stdout(io.StringIO()), warnings.catch_warnings():
+            warnings.simplefilter("ignore")
+            return ("ok", _plain(f(*qa)))
+    except (ValueError, ZeroDivisionError, np.linalg.LinAlgError, RuntimeError) as e:
+        return ("exc", type(e).__name__)
+
+
+def _related_ref_one(job):
+    return pickle.dumps(_related_call(*job))
+
+
+def _refs_main(out):
+    """entry point of the reference interpreter: nothing of the library has been called in this process; every
+    reference is computed in its own forked child (maxtasksperchild=1)"""
+    os.environ["VERIF_LAYOUTS"] = "0"
+    lib()
+    n = len(mutation_table()[0])
+    jobs = [(i, v) for i in range(n) for v in RELATED if not v.endswith("-again")]
+    with mp.get_context("fork").Pool(min(16, os.cpu_count() or 1), maxtasksperchild=1) as pool:
+        res = pool.map(_related_ref_one, jobs, chunksize=1)
+        pool.close()
+        pool.join()
+    with open(out, "wb") as fh:
+        pickle.dump({j: r for j, r in zip(jobs, res)}, fh)
+
+
+def _related_history(args):
+    i, refs = args
+    name = mutation_table()[0][i][0]
+    out = []
+    for v in RELATED:
+        got = _related_call(i, v)
+        if got is None:
+            continue
+        want = pickle.loads(refs[(i, v.replace("-again", ""))])
+        same = got[0] == want[0] and (_numeric_close(want[1], got[1]) if got[0] == "ok" else got[1] == want[1])
+        out.append({"ev": "Related", "fn": name, "variant": v, "same": bool(same), "outcome": got[0] if got[0] == "ok" else got[1], "reference": want[0] if want[0] == "ok" else want[1]})
+    return out
+
+
+def _related_events(tid0):
+    fd, out = tempfile.mkstemp(prefix="verif-c14-refs-", suffix=".pkl")
+    os.close(fd)
+    pr = subprocess.run([sys.executable, "-c", "import sys; sys.path.insert(0, %r); from harness.props import c14; c14._refs_main(%r)" % (os.path.dirname(os.path.dirname(os.path.dirname(os.path.abspath(__file__)))), out)],
+                        stdout=subprocess.PIPE, stderr=subprocess.PIPE, text=True, timeout=1800,
+                        env=dict(os.environ, PYTHONDONTWRITEBYTECODE="1", MPLBACKEND="Agg", VERIF_LAYOUTS="0"))
+    if pr.returncode != 0:
+        raise RuntimeError("reference interpreter failed:\n" + pr.stderr[-2000:])
+    with open(out, "rb") as fh:
+        refs = pickle.load(fh)
+    os.unlink(out)
+    n = len(mutation_table()[0])
+    ev = []
+    tid = tid0
+    for lst in par.pmap(_related_history, [(i, {k: r for k, r in refs.items() if k[0] == i}) for i in range(n)], chunk=1):
+        for e in lst:
+            tid += 1
+            ev.append(dict(e, tid=tid))
+    return ev
+
+
 def _seeded_events(tid0):
     """routines that draw random numbers are reproducible functions of the global seed"""
     L = lib()
@@ -761,6 +884,7 @@ def run(ctx, replay=None):
     events += _seeded_events(910000)
     events += _layout_events(915000)
     events += _stale_events(917000)
+    events += _related_events(930000)
     sev, copies = _style_events(920000)
     events += sev
     ctx.notes["package_import_also_loads_toplevel_modules"] = copies
@@ -780,12 +904,12 @@ def run(ctx, replay=None):
         if key in seen:
             continue
         seen.add(key)
-        cls = {"Construct": "history", "Mutation": "mutation-table", "Seeded": "seeded", "Style": "import-style", "Layout": "memory-layout", "Stale": "in-place-update-history", "Returned": "caller-overwrites-result"}[head["ev"]]
+        cls = {"Construct": "history", "Mutation": "mutation-table", "Seeded": "seeded", "Style": "import-style", "Layout": "memory-layout", "Stale": "in-place-update-history", "Returned": "caller-overwrites-result", "Related": "related-arguments-history"}[head["ev"]]
         ctx.fail(fn, clause, cls, {"events": es[:5]})
     for e in events:
         if e["ev"] != "Construct":
             ctx.case((e["tid"], e.get("step"), e["ev"]))
-    ctx.replays = sum(1 for e in events if e["ev"] in ("Call", "Mutation", "Seeded", "Style", "Layout", "Stale", "Returned"))
+    ctx.replays = sum(1 for e in events if e["ev"] in ("Call", "Mutation", "Seeded", "Style", "Layout", "Stale", "Returned", "Related"))
     ctx.count("SameAsFreshObject", sum(1 for e in events if e["ev"] == "Call"))
     ctx.count("ArgumentsUnchanged", sum(1 for e in events if e["ev"] in ("Call", "Mutation")))
     ctx.sample({"direction": "F", "history": [e for e in events if e["ev"] in ("Construct", "Call")][:4]})
